@@ -973,6 +973,12 @@ pub mod leaf_updater {
     pub const MAX_LEAF_VALUE_SIZE: usize = crate::beatree::ops::leaf_updater_verif::consts::MAX_VALUE;
 }
 
+// H29 — The leaf builder (`beatree/leaf/node.rs`): the real `LeafBuilder` driven call by call (`new`, `push_cell`,
+// `push_chunk` on caller-supplied base pages, `finish`) and a leaf page read back through the real accessors.
+pub mod leaf_builder {
+    pub use crate::beatree::leaf::node::verif::{entries, run, Op};
+}
+
 // H16 — The page walker (`merkle/page_walker.rs`): the real `PageWalker<Blake3Hasher>` over an in-memory
 // implementation of its `PageSet` trait, driven call by call (`new / advance / advance_and_replace /
 // advance_and_place_node / conclude`, `reconstruct_pages`, `count_leaves`), with a view of its private state
